@@ -251,7 +251,7 @@ func (x *exec) ownEnv(s *State) *specEnv {
 func (env *specEnv) lockSnap() *State {
 	var found *State
 	for k, v := range env.cur.snap {
-		if strings.HasPrefix(k, "lock:") {
+		if strings.HasPrefix(k, "lock:") && v != nil {
 			if held, ok := env.cur.held[k[5:]]; ok && !held.IsFalse() {
 				if found != nil {
 					return nil
@@ -1524,7 +1524,7 @@ func (x *exec) havocModifies(s, old *State, cl *Clause, blk *Block, fn *ssa.Func
 		if item == "*" {
 			e.noteWrite(s, "*", wtarget{kind: wAll})
 			for _, key := range sortedSortKeys(e.heapSorts) {
-				s.heap[key] = c.Fresh("mod.H:"+key, e.heapSorts[key])
+				s.heap[key] = c.Fresh("mod.H{"+key+"}", e.heapSorts[key])
 			}
 			continue
 		}
@@ -1535,7 +1535,7 @@ func (x *exec) havocModifies(s, old *State, cl *Clause, blk *Block, fn *ssa.Func
 				so := e.heapSorts[k]
 				if k == key || strings.HasPrefix(k, key+"#") {
 					e.noteWrite(s, k, wtarget{kind: wAll})
-					s.heap[k] = c.Fresh("mod.H:"+k, so)
+					s.heap[k] = c.Fresh("mod.H{"+k+"}", so)
 				}
 			}
 			continue
@@ -1620,7 +1620,7 @@ func (x *exec) havocLvalue(s, old *State, env *specEnv, ex ast.Expr, wild bool, 
 			h := e.heapGet(s, key, Array(Int, Array(Int, l.sort)))
 			e.noteWrite(s, key, wtarget{kind: wRow, arr: base.Arr, lo: base.Off, n: base.Len})
 			row := c.Select(h, base.Arr)
-			nr := c.Fresh("mod.row", Array(Int, l.sort))
+			nr := c.Fresh("mod.row{"+key+"}", Array(Int, l.sort))
 			k := c.BoundVar("k", Int)
 			in := c.And(c.Le(base.Off, k), c.Lt(k, c.Add(base.Off, base.Len)))
 			sel := c.Select(nr, k)
@@ -1641,7 +1641,7 @@ func (x *exec) havocLvalue(s, old *State, env *specEnv, ex ast.Expr, wild bool, 
 		h := e.heapGet(s, lp.key, Array(Int, Array(Int, lp.sort)))
 		e.noteWrite(s, lp.key, wtarget{kind: wRow, arr: base.Arr, lo: base.Off, n: base.Len})
 		row := c.Select(h, base.Arr)
-		nr := c.Fresh("mod.row", Array(Int, lp.sort))
+		nr := c.Fresh("mod.row{"+lp.key+"}", Array(Int, lp.sort))
 		k := c.BoundVar("k", Int)
 		in := c.And(c.Le(base.Off, k), c.Lt(k, c.Add(base.Off, base.Len)))
 		sel := c.Select(nr, k)
